@@ -57,6 +57,12 @@ func txFieldsLine(f txFields) string {
 			}
 		}
 	}
+	if len(f.links) > 0 {
+		fmt.Fprintf(&b, " K %d", len(f.links))
+		for _, q := range f.links {
+			fmt.Fprintf(&b, " %s", txWire(q))
+		}
+	}
 	return b.String()
 }
 
@@ -83,6 +89,12 @@ func txStepLine(s txStep) string {
 			}
 			return fmt.Sprintf("%s %s", head, s.query)
 		}
+	case "lk":
+		parts := []string{"lk", s.op, txWire(s.id), fmt.Sprint(len(s.f.links))}
+		for _, q := range s.f.links {
+			parts = append(parts, txWire(q))
+		}
+		return strings.Join(parts, " ")
 	case "fail", "fail1", "ac":
 		return fmt.Sprintf("%s %d", s.kind, s.tag)
 	case "ap":
@@ -97,7 +109,11 @@ func txStepLine(s txStep) string {
 
 func txCaseLine(c *txCase) string {
 	var parts []string
-	parts = append(parts, "E", fmt.Sprint(len(c.regsP)))
+	parts = append(parts, "E")
+	if c.sharedSlice {
+		parts = append(parts, "S")
+	}
+	parts = append(parts, fmt.Sprint(len(c.regsP)))
 	for _, r := range c.regsP {
 		parts = append(parts, txRegLine(r))
 	}
@@ -194,6 +210,10 @@ func withTags(s txStep, tags []txTag) txStep {
 	s.f.tags = tags
 	return s
 }
+func withLinks(s txStep, links ...string) txStep {
+	s.f.links = links
+	return s
+}
 func opDelete(store byte, id string) txStep {
 	return txStep{kind: "op", fault: "-", op: "de", store: store, id: id}
 }
@@ -208,7 +228,7 @@ func opDeleteWhere(store byte, query, qname string) txStep {
 func txSetupTx() txTx {
 	return txTx{mode: 'u', steps: []txStep{
 		opCreate('P', "p1", "n1", []string{"r"}, nil, ""),
-		opCreate('C', "c1", "n2", nil, sp("p1"), "k1"),
+		withLinks(opCreate('C', "c1", "n2", nil, sp("p1"), "k1"), "q1"),
 		opCreate('P', "p4", "n0", []string{"t"}, nil, ""),
 		opCreate('D', "d1", "nd", nil, nil, "g1"),
 		opCreate('C', "b1", "nb0", nil, nil, "k7"),
@@ -234,10 +254,10 @@ func txObservers() []txReg {
 // a natural one and just as welcome)
 func txGoodOps() []txStep {
 	return []txStep{
-		withTags(opCreate('P', "p2", "n3", []string{"s"}, nil, ""), txGoodTags()),
-		withTags(opCreate('C', "c2", "n4", []string{"s", "r"}, sp("p1"), "k2"), txGoodTags()[:3]),
+		withLinks(withTags(opCreate('P', "p2", "n3", []string{"s"}, nil, ""), txGoodTags()), "q2", "q1"),
+		withLinks(withTags(opCreate('C', "c2", "n4", []string{"s", "r"}, sp("p1"), "k2"), txGoodTags()[:3]), "q1"),
 		withTags(opUpdate('P', "p1", "n5", []string{"r", "s"}, nil, ""), txGoodTags()[3:]),
-		opUpdate('P', "c1", "n6", nil, sp("p1"), ""),
+		withLinks(opUpdate('P', "c1", "n6", nil, sp("p1"), ""), "q1", "q1", "q2"),
 		opUpdate('C', "c1", "n2", []string{"r"}, nil, "k9"),
 		opDelete('P', "c1"),
 		opDelete('C', "c1"),
@@ -282,6 +302,10 @@ var txFailKinds = []string{
 	"fail1", "fail1after", "vetoPonce", "vetoConce", "vetoDonce",
 	// the second child store: entity constraint veto on its flow (plain / RecordNotFoundError), index-stage vetoes
 	"vetoD", "vetoDnf", "ixDb", "ixDa", "ixDd", "ixDB", "ixDA", "ixDD",
+	// link operations (nothing injected — the target simply does not exist in the linked store): the written entity's
+	// linked ids name a missing target; the transaction function itself calls AddLinks / SetLinks with a missing target,
+	// or a link operation on an entity that does not exist, before the operation
+	"linkmissing", "lkaddmissing", "lksetmissing", "lknoentity",
 	// the tags map of the written entity holds a value the typed-bucket setters reject (nothing injected)
 	"tagbad0", "tagbad1", "tagbad2", "tagbadS", "tagkeyempty", "tagkeybig",
 }
@@ -426,6 +450,17 @@ func txInject(c *txCase, body []txStep, i int, kind string) ([]txStep, bool) {
 		default:
 			c.ixD = append(c.ixD, nil, reg)
 		}
+	case "linkmissing":
+		if !write {
+			return nil, false
+		}
+		s.f.links = []string{"q1", "zz"}
+	case "lkaddmissing":
+		return insert(txStep{kind: "lk", op: "a", id: "p1", f: txFields{links: []string{"q2", "zz"}}}), true
+	case "lksetmissing":
+		return insert(txStep{kind: "lk", op: "s", id: "c1", f: txFields{links: []string{"zz"}}}), true
+	case "lknoentity":
+		return insert(txStep{kind: "lk", op: "r", id: "zz", f: txFields{links: []string{"q1"}}}), true
 	case "tagbad0", "tagbad1", "tagbad2", "tagbadS", "tagkeyempty", "tagkeybig":
 		if !write {
 			return nil, false
@@ -512,6 +547,8 @@ func txFaultCase(body []txStep, pos int, kind string, mode byte, reuse bool, swa
 		opCreate('P', "p3", "n9", []string{"t"}, nil, ""),
 	}}
 	c.txs = []txTx{txSetupTx(), {mode: mode, steps: full}, follow}
+	// the Batch variants register their listeners the way a caller with one reused change-type slice does
+	c.sharedSlice = mode == 'b'
 	return txCaseLine(c), true
 }
 
@@ -641,6 +678,9 @@ func txRandomFields(r *rng, p txProfile, safe bool, id string) txFields {
 	f := txFields{}
 	names := []string{"n1", "n2", "n3", "n4", "n5", "n6"}
 	if r.chance(1, 4) {
+		f.links = pick(r, [][]string{{"q1"}, {"q2", "q1"}, {"q1", "q1"}, {"q2"}})
+	}
+	if r.chance(1, 4) {
 		g := txGoodTags()
 		// well-formed parts of it (list indexes stay contiguous)
 		f.tags = pick(r, [][]txTag{g, g[:1], g[1:3], g[1:], g[3:], g[4:], g[5:]})
@@ -654,7 +694,9 @@ func txRandomFields(r *rng, p txProfile, safe bool, id string) txFields {
 	f.roles = pick(r, [][]string{nil, nil, {"r"}, {"s", "r"}, {"r", "r", "t"}, {txBig32767}})
 	f.ref = pick(r, []*string{nil, nil, nil, sp("p1"), sp("c1"), sp("p2"), sp(id), sp("")})
 	if r.intn(100) < p.failBias {
-		switch r.intn(8) {
+		switch r.intn(9) {
+		case 8:
+			f.links = pick(r, [][]string{{"zz"}, {"q1", "zz"}, {""}})
 		case 7:
 			f.tags = txBadTags[pick(r, txBadTagKinds)]
 		case 0:
@@ -771,6 +813,7 @@ func txRandomCase(r *rng, p txProfile) string {
 	c.regsP = txRandomRegs(r, p.listeners, txIdsAll)
 	c.regsC = txRandomRegs(r, p.listeners, txIdsAll)
 	c.txl = r.intn(3)
+	c.sharedSlice = r.chance(1, 2)
 	ntx := 1 + r.intn(p.maxTx)
 	live := txLive{}
 	if r.chance(1, 2) {
@@ -804,7 +847,15 @@ func txRandomCase(r *rng, p txProfile) string {
 				tx.steps = append(tx.steps, s)
 			case x == 13:
 				if r.intn(100) < p.failBias {
-					tx.steps = append(tx.steps, txStep{kind: "fail", tag: r.intn(3)})
+					tx.steps = append(tx.steps, txStep{kind: pick(r, []string{"fail", "fail", "fail1"}), tag: r.intn(3)})
+				} else if !safe {
+					// a link operation of the transaction function (now and then with a missing target / entity)
+					ls := txStep{kind: "lk", op: pick(r, []string{"a", "r", "s"}), id: live.pick(r, txIdsAll),
+						f: txFields{links: pick(r, [][]string{{"q1"}, {"q2", "q1"}, {"q2"}, nil})}}
+					if r.intn(100) < p.failBias {
+						ls.f.links = append(ls.f.links, "zz")
+					}
+					tx.steps = append(tx.steps, ls)
 				}
 			case x < 16:
 				tx.steps = append(tx.steps, txStep{kind: "ac", tag: 10*t + i})
@@ -896,6 +947,11 @@ func txMatrixCases(emit func(string)) {
 					c.regsD = other[1:]
 				}
 				emit(txCaseLine(c))
+				// the same registrations made through one reused slice of additional change types
+				if len(types) > 1 {
+					c.sharedSlice = true
+					emit(txCaseLine(c))
+				}
 			}
 		}
 	}
